@@ -160,7 +160,7 @@ def scale_faces(cls, faces, L):
 def scale_spec(spec, L, K):
     """boundary data in the other unit system: a x L (multiplies a gradient), b unchanged, c x K"""
     return {'periodic': list(spec['periodic']),
-            'sides': {s: {'kind': v['kind'], 'a': v['a'] * L, 'b': v['b'].copy(), 'c': v['c'] * K} for s, v in spec['sides'].items()}}
+            'sides': {s: {'kind': v['kind'], 'a': v['a'] * L, 'b': v['b'].copy(), 'c': v['c'] * K} for s, v in spec['sides'].items()}}       # plain arrays: no 'util'
 
 
 def equilibrated_cond(M):
@@ -265,15 +265,37 @@ def periodic_ok(cls, k):
     return AXKIND[cls][k] != 'rad'
 
 
-def gen_bc_spec(rng, g, kinds=None, periodic_axes=(), robin_signs='wellposed', lams=(1.0, 1.0, -1.0, 2.5, 1e-3, 1e3)):
+def gen_bc_spec(rng, g, kinds=None, periodic_axes=(), robin_signs='wellposed', lams=(1.0, 1.0, -1.0, 2.5, 1e-3, 1e3), utilities=True):
     """Boundary-condition spec: {side: {'kind','a','b','c'}} plus 'periodic' axes list.
     kinds: dict side->kind or None (random among D/N/R)."""
     spec = {'periodic': [int(k) for k in periodic_axes], 'sides': {}}
+    # a periodic axis is declared by the flag of its low side, of its high side, or both (either suffices for the library)
+    spec['pstyle'] = {int(k): str(rng.choice(['both', 'low', 'high'])) for k in periodic_axes}
     for k in range(g.nd):
         for j, side in enumerate(SIDES[k]):
             sh = g.side_shape(k)
             kind = (kinds or {}).get(side) or str(rng.choice(['D', 'N', 'R']))
             lam = float(rng.choice(list(lams)))
+            util = None
+            if utilities and (kinds or {}).get(side) is None and rng.random() < 0.35:
+                # the same three kinds written with the utility methods (their documented arithmetic reproduced here bit for bit)
+                if kind == 'D':
+                    v = rng.normal(0, 1, sh) if rng.random() < 0.5 else float(rng.normal())
+                    util = ('fixedValue', (v,), {})
+                    a, b, c = np.zeros(sh), np.ones(sh), np.broadcast_to(np.asarray(v, dtype=float), sh).copy()
+                elif kind == 'N':
+                    gr = rng.normal(0, 1, sh) if rng.random() < 0.5 else float(rng.normal())
+                    sc = float(rng.choice([1.0, 1.0, -2.0, 0.25, 1e3]))
+                    util = ('fixedGradient', (gr,), {'scale_coeffs': sc} if sc != 1.0 or rng.random() < 0.5 else {})
+                    a, b, c = np.full(sh, sc), np.zeros(sh), np.broadcast_to(np.asarray(sc * gr, dtype=float), sh).copy()
+                else:
+                    kk, hh, Te = float(np.exp(rng.normal(0, 1))), float(np.exp(rng.normal(0, 1))), float(rng.normal())
+                    rev = bool(j == 0) if robin_signs == 'wellposed' else bool(rng.random() < 0.5)
+                    util = ('newtonCooling', (kk, hh, Te), {'reverse_direction': rev})
+                    he = -hh if rev else hh
+                    a, b, c = np.full(sh, kk), np.full(sh, he), np.full(sh, he * Te)
+                spec['sides'][side] = {'kind': kind, 'a': a, 'b': b, 'c': c, 'util': util}
+                continue
             if kind == 'D':
                 a = np.zeros(sh)
                 b = np.ones(sh) * lam
@@ -344,12 +366,19 @@ def apply_bc_spec(BC, g, spec):
         for side in SIDES[k]:
             s = spec['sides'][side]
             face = getattr(BC, side)
+            if s.get('util'):
+                name, args, kw = s['util']
+                getattr(face, name)(*args, **kw)
+                continue
             face.a = s['a']
             face.b = s['b']
             face.c = s['c']
     for k in spec['periodic']:
-        getattr(BC, SIDES[k][0]).periodic = True
-        getattr(BC, SIDES[k][1]).periodic = True
+        st = (spec.get('pstyle') or {}).get(k, 'both')
+        if st in ('both', 'low'):
+            getattr(BC, SIDES[k][0]).periodic = True
+        if st in ('both', 'high'):
+            getattr(BC, SIDES[k][1]).periodic = True
     return BC
 
 
